@@ -690,6 +690,7 @@ def compare(ctx, cases, drv):
     res = core.pmap(run_impl_safe, cases, chunksize=2)
     mres = drv.pbatch(reqs)
     problems = []
+    sql_items = []
     for c, req, r, m in zip(cases, reqs, res, mres):
         ps = pairs_of(c)
         has_tf = any("tf" in l for cc in c["comparisons"] for l in cc["levels"])
@@ -757,6 +758,10 @@ def compare(ctx, cases, drv):
             problems.append((c, "predict() columns differ from Lean model Score.score: " + bad, False))
             continue
         ctx.traces_validated += 1
+        sql_items.append((c, r))
+    from harness.props import c02_sql
+
+    problems += c02_sql.validate(ctx, sql_items, drv)  # the regenerated scoring SQL under Rel.eval vs the engine (translation validation)
     return problems
 
 
@@ -876,10 +881,16 @@ def run(ctx: core.Ctx):
     from harness.translate import tarith
 
     errs = tarith.write({"threshold_args_to_match_weight", "prob_to_match_weight", "prob_to_bayes_factor", "bayes_factor_to_prob", "match_weight_to_bayes_factor"})  # the model's threshold conversion is the translated source
+    from harness.props import c02_sql
+
+    sql_errs = c02_sql.prepare()  # Generated/ScoreSql.lean: the scoring statements comparison_vector_values.py / predict.py emit now, as Rel terms (T-sql); Properties/C02Sql.lean is re-checked against it
     ctx.lean = core.lean_check(PROP, ctx.thorough)
     if errs:
         ctx.lean.ok = False
         ctx.lean.problems += ["T-arith: " + e for e in errs]
+    if sql_errs:
+        ctx.lean.ok = False
+        ctx.lean.problems += ["T-sql: " + e for e in sql_errs]
     drv = core.Driver()
     if ctx.replay:
         cases = [json.loads(open(ctx.replay).read())["replay"]["case"]]
